@@ -17,7 +17,7 @@ from mbt import engine as E
 from mbt.drive import childorder as CO
 
 PID = "C10"
-ALL_OPS = ("Insert", "Add", "PublicAdd", "GetOrAdd", "RemoveAll", "ChangeTo", "Hand")
+ALL_OPS = ("Insert", "Add", "PublicAdd", "GetOrAdd", "RemoveAll", "ChangeTo", "Hand", "HandGetOrAdd")
 CFG = ("SPECIFICATION Spec\nCONSTANTS DEPTH = %d\n SUBSETS = %s\n MAXSLOTS = %d\n L2OPS = {%s}\n L2MAXSLOTS = %d\nVIEW ViewSt\nINVARIANT TypeOK\n"
        "INVARIANT InitPermitted\nCHECK_DEADLOCK FALSE\n")
 _RE_INIT = re.compile(r"Finished computing initial states: (\d+) distinct state")
@@ -136,7 +136,7 @@ def validate_steps(work, cpath, steps, tag="obs", size=30000):
 def minimal(recs, named=(), slots=()):
     """Witness: an operation whose method the library names first, then a parent that is schema-valid as it stands (its
     required slots all populated, the child's own one too), then fewest siblings, then the simplest operation."""
-    order = {"Insert": 0, "Add": 1, "PublicAdd": 2, "GetOrAdd": 3, "ChangeTo": 4, "RemoveAll": 5}
+    order = {"Insert": 0, "Add": 1, "PublicAdd": 2, "GetOrAdd": 3, "ChangeTo": 4, "RemoveAll": 5, "Hand": 6, "HandGetOrAdd": 7}
 
     def incomplete(s):
         return 0 if all(any(t in sl["members"] for t in s["s"]) for sl in slots if sl["req"]) else 1
@@ -189,7 +189,7 @@ def main() -> int:
 
     maxslots = 12
     # second step ("insert after insert"): the quick tier applies the inserting entry points only
-    l2ops = ALL_OPS if thorough else ("Insert", "PublicAdd", "GetOrAdd", "ChangeTo", "Hand")
+    l2ops = ALL_OPS if thorough else ("Insert", "PublicAdd", "GetOrAdd", "ChangeTo", "Hand", "HandGetOrAdd")
     l2max = 99 if thorough else 16     # ... and only to element types of <= 16 slots (the three axis types are 20-23)
     r, n_init, trs, cex, cpath = model_check(work, consts, "a", 2, thorough, maxslots, l2ops=l2ops, l2max=l2max)
     t_mc = r.wall
